@@ -64,7 +64,7 @@ func c14SelfCheck() {
 	if _, ok := w.lock.Get(t.cpKey); !ok {
 		fail("lock-store key of the checkpoint record is not the one the witness uses")
 	}
-	if len(w.lockHist) != 2 {
+	if len(w.ta.lockHist) != 2 {
 		fail("monitor did not see the witness's lock-store write (key mismatch?)")
 	}
 	if _, ok := w.obj.Get(t.pubKey); !ok {
